@@ -752,6 +752,51 @@ def _bool_eval(node, val):
     return val(node)
 
 
+def _callback_helpers(m, c, off, cb_p, depth=2):
+    """(function, parameter, call) for the functions of the emitter's class or module that off() hands its callback to."""
+    out = []
+    cls = {n.name: n for n in c.body if isinstance(n, (ast.FunctionDef,))}
+    mod = {n.name: n for n in m.tree.body if isinstance(n, ast.FunctionDef)}
+    seen = set()
+
+    def visit(func, pname, d):
+        for call in walk_no_defs(func):
+            if not isinstance(call, ast.Call):
+                continue
+            idx = [i for i, a in enumerate(call.args) if _is_name(a, pname)]
+            kws = [k.arg for k in call.keywords if k.arg and _is_name(k.value, pname)]
+            if not idx and not kws:
+                continue
+            target, bound = None, False
+            f = call.func
+            if isinstance(f, ast.Attribute) and isinstance(f.value, ast.Name) and f.attr in cls:
+                target = cls[f.attr]
+                static = any(isinstance(dc, ast.Name) and dc.id == 'staticmethod' for dc in target.decorator_list)
+                bound = not static and (f.value.id != c.name)
+                if static is False and f.value.id == c.name:
+                    bound = False
+            elif isinstance(f, ast.Name) and f.id in mod:
+                target = mod[f.id]
+            if target is None:
+                continue
+            ps = [a.arg for a in target.args.posonlyargs + target.args.args]
+            names = []
+            for i in idx:
+                j = i + (1 if bound else 0)
+                if j < len(ps):
+                    names.append(ps[j])
+            names += [k for k in kws if k in ps or k in [a.arg for a in target.args.kwonlyargs]]
+            for nm in names:
+                if (target.name, nm) in seen:
+                    continue
+                seen.add((target.name, nm))
+                out.append((target, nm, call))
+                if d > 1:
+                    visit(target, nm, d - 1)
+    visit(off, cb_p, depth)
+    return out
+
+
 def _r4(model, res, m, c, methods, store):
     off = methods['off']
     s = sa.self_name(off)
@@ -873,6 +918,19 @@ def _r4(model, res, m, c, methods, store):
                               'time and is never removed' % src(n), func=c.name + '.off')
         if unrec:
             res.notes.append('C20.R4: unrecognised atoms in off() filter: %s' % sorted(set(unrec)))
+    # identity comparison in a helper the callback is handed to (the filter condition delegates to it)
+    for helper, hp, call in _callback_helpers(m, c, off, cb_p):
+        cmps = [n for n in walk_no_defs(helper) if isinstance(n, ast.Compare) and any(_is_name(x, hp) for x in [n.left] + n.comparators)]
+        by_eq = [n for n in cmps if any(isinstance(o, (ast.Eq, ast.NotEq)) for o in n.ops)]
+        by_id = [n for n in cmps if any(isinstance(o, (ast.Is, ast.IsNot)) for o in n.ops)
+                 and not any(isinstance(x, ast.Constant) and x.value is None for x in [n.left] + n.comparators)]
+        res.ob('R4', site, 'helper %s compares the callback by equality' % helper.name, not (by_id and not by_eq),
+               '; '.join(src(n) for n in by_id + by_eq) or 'no comparison')
+        if by_id and not by_eq:
+            res.violation('R4', key + ':identity-comparison:' + helper.name, m.where(by_id[0]),
+                          'off() hands its callback to %s(), which compares it by identity (%s): a bound method passed to off() is a '
+                          'new object each time it is looked up and is never removed' % (helper.name, src(by_id[0])),
+                          func=c.name + '.' + helper.name)
     # --- off(name) drops the name: on every path feasible with callback falsy, the key is deleted/emptied
     paths_nocb = sa.feasible_paths(off, {cb_p: False, cb_p + ' is None': True})
     res.floor('paths of off() with no callback', len(paths_nocb), 1)
